@@ -107,6 +107,7 @@ ThreadPool::ThreadPool(size_t n, size_t poolLoadMultiplier)
   // Set up per-thread ring counts and wake state.
   if (adjustedN > 0) {
     numRings_.store(adjustedN, std::memory_order_release);
+    ringsHighWater_.store(adjustedN, std::memory_order_release);
     numStealRings_.store(
         (adjustedN + stealRingSharing_ - 1) / stealRingSharing_, std::memory_order_release);
     auto ws = detail::makeAligned<detail::PoolWakeState>(static_cast<int32_t>(adjustedN));
@@ -350,6 +351,9 @@ void ThreadPool::resizeLocked(ssize_t sn) {
       rings_.grow_by(n - rings_.size());
     }
     numRings_.store(n, std::memory_order_release);
+    if (n > ringsHighWater_.load(std::memory_order_relaxed)) {
+      ringsHighWater_.store(n, std::memory_order_release);
+    }
 
     size_t newNumSteal = (n + stealRingSharing_ - 1) / stealRingSharing_;
     if (newNumSteal > stealRings_.size()) {
